@@ -337,5 +337,8 @@ func RenderHCL(m Model) []byte {
 			}
 		}
 	}
+	if m.Layout.HCLTail != "" {
+		return applyTail(f.Bytes(), m.Layout.HCLTail)
+	}
 	return f.Bytes()
 }
